@@ -25,7 +25,11 @@ package build
 //@      fs.ReadAttr(target.FullOutputs()[k], xattrName, state.XattrsSupported) != nil && \
 //@      bytes.Equal(fs.ReadAttr(target.FullOutputs()[0], xattrName, state.XattrsSupported), \
 //@                  fs.ReadAttr(target.FullOutputs()[k], xattrName, state.XattrsSupported))
-//@ assume func targetBuildMetadataFileName
+//@ func targetBuildMetadataFileName
+//@   property C01
+//@   modifies nothing
+//@   opt nopanic=off
+//@   opt panics=allowed
 //@   pure
 // RuleHash: the pre-build hash is computed once per target and then reused (a function of the target: `pure`
 // for callers); only a runtime hash, or a post-build hash of a target whose build can modify it, is recomputed.
@@ -264,8 +268,11 @@ package build
 // Whenever a filegroup output is (or already was) in place, the hash recorded for it is made to follow its
 // source (CopyHash): a hard-linked output must never keep a stored hash of its own, or a later in-place edit of
 // the source would go unnoticed. An output that is already the same file is left alone and reported unchanged.
-//@ assume func isSameFileContent
+//@ func isSameFileContent
+//@   property C01
 //@   modifies nothing
+//@   opt nopanic=off
+//@   opt panics=allowed
 //@ func (filegroupBuilder).Build
 //@   requires builder != nil && state != nil && target != nil && state.PathHasher != nil && builder.built != nil
 //@   opt nopanic=off
@@ -359,7 +366,7 @@ package build
 //@      (forall k int :: 0 <= k && k < len(target.Provides[lang]) ==> collected(W, target.Provides[lang][k].String()))
 //@   ensures label [C08]: collected(W, target.Label.String())
 //@   ensures deps [C08]: forall k int :: 0 <= k && k < len(target.DeclaredDependencies()) ==> collected(W, target.DeclaredDependencies()[k].String())
-//@   ensures declared_hashes [C08]: forall k int :: 0 <= k && k < len(target.Hashes) ==> collected(W, target.Hashes[k])
+//@   ensures declared_hashes [C08 C35]: forall k int :: 0 <= k && k < len(target.Hashes) ==> collected(W, target.Hashes[k])
 //@   ensures srcs [C08]: forall k int :: 0 <= k && k < len(target.AllSources()) ==> collected(W, target.AllSources()[k].String())
 //@   ensures outs [C08]: forall k int :: 0 <= k && k < len(target.DeclaredOutputs()) ==> collected(W, target.DeclaredOutputs()[k])
 //@   ensures optional_outs [C08]: forall k int :: 0 <= k && k < len(target.OptionalOutputs) ==> collected(W, target.OptionalOutputs[k])
@@ -417,8 +424,11 @@ package build
 //@      arg_path == filepath.Join(target.OutDir(), target.Outputs()[idx])
 //@   invariant "range target.Outputs()" one_per_output: removed == old(removed) + idx
 //@   ensures every_declared_output_is_removed [C35 C02]: result == nil ==> removed == old(removed) + len(target.Outputs())
-//@ assume func checkLicences
+//@ func checkLicences
+//@   property C01
 //@   modifies nothing
+//@   opt nopanic=off
+//@   opt panics=allowed
 //@ func retrieveArtifacts
 //@   requires state != nil && target != nil && state.Config != nil
 //@   opt nopanic=off
